@@ -32,10 +32,10 @@ type thread struct {
 	ch   *mchan
 	done bool
 	// recv result
-	rval interface{}
-	rok  bool
-	rgot bool
-	cond func() bool
+	rval    interface{}
+	rok     bool
+	rgot    bool
+	cond    func() bool
 	yielded bool
 }
 
